@@ -80,7 +80,7 @@ theorem load_error_iff (f : File N) (e : Err) :
 theorem unreadable_is_error (env : Env N) (e : Err) (h : load env.file = .error e)
     (pre : List (Op N)) (op : Op N) : resAfter env pre op = .err e := by
   rw [resAfter_eq]
-  cases op <;> simp [spec, funcOf, varOf, funcIn, varIn, h, resOf]
+  cases op <;> simp [spec, funcOf, varOf, funcIn, varIn, allFuncsIn, h, resOf]
 
 /-- position-independent builds: the linker emits no section called `.gopclntab`; every lookup is an error -/
 theorem pie_is_error (env : Env N) (ts : Addr) (h0 : env.file.openOk = true) (h1 : env.file.elfOk = true)
@@ -220,6 +220,17 @@ theorem absent_var_iff {env : Env N} {T : Table N} {bF bV : Addr} (L : Loaded en
   simp only [spec, varOf, varIn, L.load_ok, ← lookup_none_iff]
   cases hl : lookup T.syms n <;> simp [resOf]
 
+/-! ## AllFunctions -/
+
+/-- `AllFunctions()` answers with a set of exactly the distinct function names of the table, after any history.
+    Together with `history_independent` (where `AllFunctions` calls may occur anywhere in the history) this is: listing
+    the functions — and whatever the caller then does to the listing it was handed, which is a fresh value the package
+    keeps no reference to — never changes what a later lookup returns. -/
+theorem all_functions_spec {env : Env N} {T : Table N} {bF bV : Addr} (L : Loaded env T bF bV) (pre : List (Op N)) :
+    resAfter env pre .allFuncs = .set (T.funcs.map Prod.fst).eraseDups.length := by
+  rw [resAfter_eq]
+  simp only [spec, allFuncsIn, L.load_ok]
+
 /-! ## whole histories -/
 
 /-- the result of a call does not depend on what was looked up before it in the same process (the cached table,
@@ -302,6 +313,9 @@ example : (run { exEnv with file := { exFile with openOk := false } } {} [.findF
 example : (runSched exEnv {} [[.expose "p.g", .findVar "p.v"], [.findFunc "p.f"], [.findVar "p.v", .findFunc "p."]]
       [2, 0, 1, 1, 0, 2, 2]).map Prod.snd =
     [.ok 0x4ff008#64, .ok 0x401180#64, .ok 0x401100#64, .ok 0x4ff008#64, .err .noFunc] := by decide
+-- listing the functions between lookups changes nothing (3 distinct names among 4 entries)
+example : (run exEnv {} [.allFuncs, .findFunc "p.g", .allFuncs, .expose "p.f", .findVar "p.v", .allFuncs]).2 =
+    [.set 3, .ok 0x401180#64, .set 3, .ok 0x401100#64, .ok 0x4ff008#64, .set 3] := by decide
 -- stripped build
 example : (run { exEnv with file := { exFile with symtab := none } } {} [.findFunc "p.g", .findVar "p.v"]).2 =
     [.ok 0x401180#64, .err .noVar] := by decide
